@@ -76,7 +76,10 @@ func RunVerifyWith(c *gen.Concrete, reuse *verify.Options, id, sub int, o map[st
 	c.Getter.Reset()
 	opts := VerifyOpts(c, o)
 	if reuse != nil {
-		reuse.GetCollateral, reuse.CheckRevocations, reuse.Getter, reuse.TrustedRoots, reuse.Now = opts.GetCollateral, opts.CheckRevocations, opts.Getter, opts.TrustedRoots, opts.Now
+		reuse.GetCollateral, reuse.CheckRevocations, reuse.Getter, reuse.TrustedRoots = opts.GetCollateral, opts.CheckRevocations, opts.Getter, opts.TrustedRoots
+		if o["now"] != "unset" {
+			reuse.Now = opts.Now
+		} // "unset": the caller never touches Now; whatever the library left there stays
 		opts = reuse
 	}
 	var out Outcome
@@ -227,6 +230,9 @@ func IntelConcrete(w gen.World) *gen.Concrete {
 // RunHistoryCase runs one history: two calls in this process over worlds that share a seed (twin / faulty) or not (other platform).
 func RunHistoryCase(cs map[string]any, id int, seed int64) Result {
 	res := Result{ID: id}
+	if cs["timed"] == true {
+		return runStaleClockCase(cs, id, seed)
+	}
 	worlds := cs["worlds"].(map[string]any)
 	toWorld := func(m any) gen.World {
 		w := gen.World{}
@@ -298,4 +304,25 @@ func init() {
 		}
 		return s, nil
 	}
+}
+
+
+// runStaleClockCase: Options.Now is nil ("use the wall clock"). The PCK leaf expires about two seconds after the first
+// call; the second call, 3.5 s later through the same Options value (or a fresh one), happens after the expiry and is
+// logged as the world time=leaf_after judged at the wall clock.
+func runStaleClockCase(cs map[string]any, id int, seed int64) Result {
+	res := Result{ID: id}
+	c := gen.Build(gen.World{}, gen.Params{Seed: seed*31 + int64(id), WallNow: true, LeafExpiresIn: 2 * time.Second})
+	var shared *verify.Options
+	if cs["shared"] == true {
+		shared = &verify.Options{}
+	}
+	o := map[string]any{"gc": false, "cr": false, "now": "unset", "entry": "msg"}
+	evs := RunVerifyWith(c, shared, id, 0, o, Event{"wid": "T", "shared": cs["shared"], "input": cs})
+	res.Events = append(res.Events, evs...)
+	time.Sleep(3500 * time.Millisecond)
+	c.W = gen.World{"time": "leaf_after"}
+	evs = RunVerifyWith(c, shared, id, 1, o, Event{"wid": "T-later", "shared": cs["shared"], "input": cs})
+	res.Events = append(res.Events, evs...)
+	return res
 }
